@@ -1,5 +1,9 @@
-"""C11 - the clause "on any other value type both return false and change nothing": get_raw and parser_to_writer are analysed
-with the current type fixed to each non-container constant, and with an error latched.  Span exactness is NOT decided."""
+"""C11 - (1) the clause "on any other value type both return false and change nothing": get_raw and parser_to_writer are
+analysed with the current type fixed to each non-container constant, and with an error latched.  (2) span exactness and the
+continuation position, for bounded documents: get_raw is shown (with the token loop stubbed) to hand back exactly
+[cursor before, cursor after the last loop call), and the machine extracted for C06 shows that before a protocol-following
+get_raw the cursor is on the BEGIN token of the container and afterwards just behind its matching END, with the following
+element reported next."""
 from engine import build, irload, runner
 from engine.contracts import API, LibHooks
 from engine.absval import Int, Ptr, Null
@@ -66,10 +70,89 @@ def run(rep, tier):
             rep.ob(not r['extra']['changed'], '%s:NOOP-STATE:%s' % (r['fn'], tn),
                    'C11 %s modifies parser/writer state although the value is not a container: %s' % (where, r['extra']['changed'][:4]), '',
                    sample={'fn': r['fn'], 'current_type': tn, 'stores_to_parser_or_writer_state': 0})
+        span_clause(rep, sc, tier)
     rep.coverage.update({
         'rule': '2 functions x 8 non-container current types x entry disjuncts (+ error latched): every exit returns false and no store/memset/memmove '
                 'reaches the parser struct, the state array, the writer struct or the output buffer',
         'trusted_base': ['clang-14 IR', 'engine/absint*.py'],
         'explanation': 'abstract interpretation per current_type constant; the scratch write to the caller\'s raw->bptr before the type test is outside "parser and writer state"',
     })
-    rep.assumptions += ['exactness of the returned span (BEGIN to matching END) depends on the bytes and is NOT decided; its in-bounds part is C01']
+    rep.assumptions += ['span exactness and continuation are decided for documents up to the stated bound only (C06 machinery); in-bounds part is C01',
+                        'parser_to_writer: that it appends raw.bptr[0..raw.bsize) is the writer bound/prefix rule of C04; not re-decided here']
+
+
+# ---- clause 2: exact span and continuation (bounded documents) -----------------------------------------------------
+def span_clause(rep, sc, tier):
+    from engine.contracts import Contracts, _cell
+    from props import c06
+    lib, raws = sc.lib_ir('c11m', defs=('BINSON_PARSER_WITH_PRINT',))
+    mod = irload.load(lib)
+    # (a) wrapper rule: with the token loop stubbed, every true exit of get_raw has raw = [cursor at entry, cursor at exit)
+    api = 'binson_parser_get_raw'
+    fn = mod.functions.get(api)
+    need(fn is not None and len(fn.params) == 2, 'C11: %s(parser, raw) not found' % api)
+    C0 = Contracts(mod, LibHooks())
+    enums = C0._enums()
+    n_true = 0
+    for tname in ('BINSON_TYPE_OBJECT', 'BINSON_TYPE_ARRAY'):
+        need(tname in enums, 'C11: enumerator %s not found' % tname)
+        for flags in (None,):
+            hooks = c06.StubHooks()
+            C = Contracts(mod, hooks)
+            lay = C.lay
+            (label, st), = [(l, s_) for (l, s_) in C.parser_disjuncts(api) if l == 'ok-d1']
+            ok = C.preset_state_cell(st, label, 'current_type', Int(lay.state['current_type'][1] * 8, Aff(enums[tname])))
+            need(ok, 'C11: cannot preset the current type')
+            from engine.absval import Region
+            st.add_region(Region('OUT', 'obj', Aff(2 * lay.ptr)))
+            st.mem['OUT'] = {}
+            st.owned.add('OUT')
+            st.tags[('default', 'OUT')] = 'unknown'
+            F = lay.parser
+            u0 = _cell(st, 'P', F['buffer_used'][0], F['buffer_used'][1])
+            st.frames = [C._root_frame()]
+            outs = C.split_bool_returns(C.I.call_function(st, fn, [Ptr('P', Aff(0)), Ptr('OUT', Aff(0))], None))
+            need(not getattr(hooks, 'own_writes', None), 'C11: get_raw writes parser state outside the token loop: %s' % (getattr(hooks, 'own_writes', [''])[:1],))
+            for (s_, rv) in outs:
+                rc = s_.store.const_of(rv.a) if isinstance(rv, Int) else None
+                if rc != 1:
+                    continue
+                n_true += 1
+                S = s_.store
+                bp = _cell(s_, 'OUT', lay.bbuf['bptr'][0], lay.ptr)
+                bs = _cell(s_, 'OUT', lay.bbuf['bsize'][0], lay.ptr)
+                u1 = _cell(s_, 'P', F['buffer_used'][0], F['buffer_used'][1])
+                okp = isinstance(bp, Ptr) and bp.region == 'BUF' and isinstance(u0, Int) and S.entails_eq0(bp.off.sub(u0.a))
+                oks = isinstance(bs, Int) and isinstance(u1, Int) and isinstance(u0, Int) and S.entails_eq0(bs.a.sub(u1.a).add(u0.a))
+                if not oks and isinstance(bs, Int) and isinstance(u1, Int) and isinstance(u0, Int):
+                    # the same difference taken modulo 2^w (the stubbed loop leaves the cursor unconstrained)
+                    sg = bs.a.single()
+                    info = s_.syminfo.get(sg[0]) if sg and sg[1] == 1 and bs.a.c == 0 else None
+                    oks = info is not None and info.defn is not None and info.defn[0] == 'subw' and info.defn[1] == u1.a and info.defn[2] == u0.a
+                calls = s_.tags.get('calls', ())
+                rep.ob(okp and oks and len(calls) == 2, 'binson_parser_get_raw:SPAN-FORM:%s' % tname,
+                       'C11 SPAN-FORM get_raw (current type %s) returns true with raw = (%r, %r): not [cursor at entry, cursor after the loop calls) '
+                       '(loop calls: %r)' % (tname, bp, bs, calls), '',
+                       sample={'current_type': tname, 'raw.bptr': 'buffer + cursor at entry', 'raw.bsize': 'cursor at exit - cursor at entry',
+                               'loop_calls': [('0x%02x' % c[0]) for c in calls]})
+    need(n_true >= 2, 'C11: get_raw has no true exit for container types')
+    # (b) the machine: cursor positions around get_raw and the element reported next
+    bad, cov = c06.analyse(mod, tier, prop='C11')
+    rep.coverage['machine'] = {k: cov[k] for k in ('documents', 'product_states', 'calls_compared', 'bound')}
+    for what, text in (('position', 'span'), ('result', 'result'), ('error', 'error')):
+        hit = bad.get((what, 'get_raw'))
+        if hit is None:
+            rep.ob(True, 'binson_parser_get_raw:SPAN-EXACT:%s' % what, '', sample={'call': 'get_raw', 'compared': what})
+        else:
+            msg, doc, md, seq = hit
+            rep.ob(False, 'binson_parser_get_raw:SPAN-EXACT:%s' % what,
+                   'C11 SPAN-EXACT get_raw: %s - document %s (max_depth %d) after the calls %s' % (msg, doc, md, ' '.join(seq)), '')
+    # continuation: any disagreement of a call that follows a get_raw in its shortest witness sequence
+    for (what, api_), (msg, doc, md, seq) in sorted(bad.items()):
+        if api_ != 'get_raw' and 'get_raw' in seq[:-1]:
+            rep.ob(False, 'binson_parser_get_raw:CONTINUATION:%s' % api_,
+                   'C11 CONTINUATION after get_raw the cursor does not continue with the element that follows the container: %s %s - document %s after the calls %s'
+                   % (api_, msg, doc, ' '.join(seq)), '')
+    if not any(a != 'get_raw' and 'get_raw' in v[3][:-1] for (w, a), v in bad.items()):
+        rep.ob(True, 'binson_parser_get_raw:CONTINUATION', '',
+               sample={'rule': 'every call sequence containing get_raw agrees with the reference cursor afterwards'})
